@@ -146,6 +146,45 @@ def run(run, replay=None):
                 files0 = files1
         finally:
             r.stop()
+    # ---- registrations that are queued together (the updater is busy while they arrive): equal-score homophones must come back
+    # ---- from the restart in the order the running server offered them ----------------------------------------------------
+    ud = os.path.join(wd, "queued-user")
+    os.makedirs(ud, exist_ok=True)
+    srv = S.Server(bindir, dic, userdir=ud, save_secs=1, env={"CHOKAN_VERIF_DELAY_UPDATER": "250"})
+    try:
+        if not srv.wait_listening():
+            fails.append(("start", {"kind": "start"}, {"scenario": "queued"}))
+        else:
+            regs = [("ぬぬ", "奴々", "CommonNoun")]           # keeps the updater busy while the others queue up
+            for i, rd in enumerate(["ねのね", "ぬのの", "ねねぬ"]):
+                for j in range(2 + (i % 2)):
+                    regs.append((rd, "甲乙丙"[j] + "〇一二"[i], "CommonNoun"))
+            history = []
+            for rd, w, kind in regs:
+                st_ = srv.rpc("RegisterWord", {"kind": kind, "reading": rd, "word": w})[0]
+                history.append(["register", kind, rd, w, st_])
+            stats["queued_registrations"] = len(regs)
+            S.wait_until(lambda: (lambda d: d is not None and len(d["user_entries"]) >= len(regs))(srv.dump()), 30.0)
+            time.sleep(0.6)                                     # the last entry reaches the dictionary after the user dictionary
+            q_probes = sorted({rd for rd, _, _ in regs})
+            q_before = {rd: S.texts(srv.conv(rd)) for rd in q_probes}
+            time.sleep(2.5)                                     # two save ticks
+            srv.stop()
+            srv = S.Server(bindir, dic, userdir=ud, save_secs=1)
+            if not srv.wait_listening():
+                fails.append(("restart", {"kind": "restart"}, {"scenario": "queued"}))
+            else:
+                stats["restarts"] += 1
+                q_after = {rd: S.texts(srv.conv(rd)) for rd in q_probes}
+                stats["probe_pairs"] += len(q_probes)
+                bad = [rd for rd in q_probes if q_before[rd] != q_after[rd]]
+                if bad:
+                    fails.append(("differs-after-restart", {"kind": "differs-after-restart", "scenario": "queued"},
+                                  {"history": history + [["wait-applied"], ["probe"], ["save"], ["restart"], ["probe"]],
+                                   "note": "the updater is delayed by 250 ms per entry (hook), so the registrations are queued together",
+                                   "probe": bad[0], "before": q_before[bad[0]], "after": q_after[bad[0]]}))
+    finally:
+        srv.stop()
     # ---- a large user dictionary (tens of KiB on disk): every registered word must come back after a restart --------------
     bulk_n = 3000 if thorough else 1000
     ud = os.path.join(wd, "bulk-user")
@@ -210,7 +249,7 @@ def run(run, replay=None):
                     "distinct_nontrivial": stats["histories"],
                     "rule": "history = 10–20 steps mixing registrations of all kinds (guessed verbs of several classes, adjectives, "
                             "adjectival verbs, nouns with ー / a–z readings) and confirmations in the four contexts with clock jumps; "
-                            "then save + restart twice; 48 probe conversions (12 inputs x 4 contexts, ordered lists) and Verif.Dump "
+                            "then save + restart twice; a scenario in which eight registrations (three groups of equal-score homophones) are queued together while the updater is delayed, then save + restart; 48 probe conversions (12 inputs x 4 contexts, ordered lists) and Verif.Dump "
                             "are compared before/after each restart; user.dic must be byte-identical across the second save; plus one bulk "
                             "scenario: 1000 (thorough 3000) noun registrations with multi-byte readings (user.dic of tens of KiB), restart, "
                             "entry list compared",
